@@ -14,6 +14,8 @@ def check(run):
                      "complete with the normal result; non-trivial = at least one handler invocation")
     run.rules.append("leg T: every handler entry of every recorded random evaluation logs try_lock() on the context handle and on the five global stores; TLC requires all free")
     ef.eval_model_and_replay(run, "reent-d1", ef.mceval_cfg("c14-d1", depth=1, full_faults=False), "C14", acts=[None] + ACTS, sample_filter=lambda r: len(r["log"]) >= 1)
+    # handlers that lock the evaluating context AND write to it
+    ef.eval_model_and_replay(run, "mutators-d1", ef.mceval_cfg("c14-mut", depth=1, full_faults=False, mutators=True), "C14", acts=[None, "lockctx-blocking"], sample_filter=lambda r: len(r["log"]) >= 1)
     if thorough:
         ef.eval_model_and_replay(run, "reent-d2", ef.mceval_cfg("c14-d2", depth=2, full_faults=False, modes=("mixed",)), "C14", acts=["lockctx-blocking", "execute", "reginfix"], sample_filter=lambda r: len(r["log"]) >= 1)
     else:
